@@ -1086,7 +1086,9 @@ example : R2A.tkeepVal 32 % 2^8 = 0xF ∧ R2A.tkeepVal 8 % 2^8 = 1 ∧ R2A.tkeep
   * `Axi.Clk.clk_counts_accepted_beat` pulses generated = value of the ACCEPTED beat, for every TDATA/TVALID/start/reset/done
                                         behaviour after the handshake; then one load_outs pulse; FSM idle again
   * `Axi.Clk.clk_oracle_accepts_model`/`_generated`  the oracle `Spec.Clk.check` accepts every schedule
-  * `Axi.Clk.clk_stale_count_counterexample`         finding: a beat accepted right after END counts from the old target -/
+  * `Axi.Clk.clk_back_to_back`                       beat T1, then beat T2 in the cycle after load_outs: exactly T2 pulses
+  * `Axi.Clk.clk_back_to_back_example`               former witness of C16-axi2clk-stale-count (fixed by bcd06db): 2 then 5 pulses
+  * `Axi.Clk.clk_accepts_while_counting_counterexample`  finding: READY stays up during a count, the beat accepted then is lost -/
 
 /-- the headline statement on the GENERATED FSM: through `stepG` (i.e. `Gen.Axi2ClkFSM.step`), a beat T accepted by an idle,
     cleared Axi2Clk yields exactly T pulses then load_outs, whatever the inputs do during the count. -/
@@ -1096,6 +1098,6 @@ theorem clk_generated_counts_accepted_beat (c : Clk.Cfg) (s : Clk.St) (i0 : Clk.
     Clk.outs c (Clk.stepG c s i0) js = Spec.Clk.pulseTrain i0.tdata ∧
     ((Spec.Clk.pulseTrain i0.tdata).filter (fun p => p.1 == 1)).length = i0.tdata := by
   rw [Clk.stepG_eq_step]
-  exact ⟨(Clk.clk_counts_accepted_beat c s i0 js hidle hclear hact hvalid hT1 hT2 hlen).1, (Clk.pulseTrain_count _).1⟩
+  exact ⟨(Clk.clk_counts_from_clear c s i0 js hidle hclear hact hvalid hT1 hT2 hlen).1, (Clk.pulseTrain_count _).1⟩
 
 end C16
